@@ -341,12 +341,18 @@ func (c *trCtx) stateStmt(s ast.Stmt, ind string, fset *token.FileSet) ([]string
 				deflt = cl
 				continue
 			}
-			if len(cl.List) != 1 {
-				return nil, trFail(cl, fset, "case with several expressions")
-			}
-			cond, err := c.expr(cl.List[0], fset)
-			if err != nil {
-				return nil, err
+			// `case a, b:` is `a || b`
+			cond := ""
+			for k, ce := range cl.List {
+				one, err := c.expr(ce, fset)
+				if err != nil {
+					return nil, err
+				}
+				if k == 0 {
+					cond = one
+				} else {
+					cond = "(" + cond + " || " + one + ")"
+				}
 			}
 			kw := "  else if "
 			if first {
